@@ -6,6 +6,7 @@ import (
 	"os/user"
 	"reflect"
 	"sort"
+	"strconv"
 	"strings"
 	"sync"
 
@@ -148,6 +149,57 @@ func parseLoose(g *logenc.Group) []*auparse.AuditMessage {
 		}
 	}
 	return msgs
+}
+
+// c15ResolveStability: coalesce + ResolveIDs of events whose ids have names that never expire (root and the names
+// injected with HardcodeUsers/Groups) must give the same result however many OTHER ids were resolved in between
+// (thousands of distinct unknown uids/gids, as a host with many containers produces).
+func c15ResolveStability(c *mon.Ctx) {
+	line := func(seq int, ids [9]string) string {
+		return fmt.Sprintf("type=SYSCALL msg=audit(1500000000.200:%d): arch=c000003e syscall=2 success=yes exit=3 a0=0 a1=0 a2=0 a3=0 items=0 ppid=1 pid=2 auid=%s uid=%s gid=%s euid=%s suid=%s fsuid=%s egid=%s sgid=%s fsgid=%s tty=pts0 ses=1 comm=\"cat\" exe=\"/bin/cat\" key=(null)", seq, ids[0], ids[1], ids[2], ids[3], ids[4], ids[5], ids[6], ids[7], ids[8])
+	}
+	anchors := []string{
+		line(1, [9]string{"1000", "1000", "1000", "38", "100014", "0", "38", "100021", "0"}),
+		line(2, [9]string{"100014", "0", "0", "1000", "38", "100014", "1000", "1000", "100021"}),
+	}
+	resolve := func(l string) string {
+		m, err := auparse.ParseLogLine(l)
+		if err != nil {
+			return "parse:" + err.Error()
+		}
+		e, err := aucoalesce.CoalesceMessages([]*auparse.AuditMessage{m})
+		if e != nil {
+			aucoalesce.ResolveIDs(e)
+		}
+		return eventSig(e, err)
+	}
+	first := make([]string, len(anchors))
+	for i, a := range anchors {
+		first[i] = resolve(a)
+		if !strings.Contains(first[i], "alice") || !strings.Contains(first[i], "verif-u") || !strings.Contains(first[i], "verif-g") || !strings.Contains(first[i], "root") {
+			c.Note("resolve-stability: the injected names do not show in the resolved anchor event; phase skipped")
+			return
+		}
+	}
+	next := 3000000
+	for round := 0; round < c.Pick(3, 12); round++ {
+		for j := 0; j < c.Pick(1500, 6000); j++ {
+			var ids [9]string
+			for k := range ids {
+				ids[k] = strconv.Itoa(next)
+				next++
+			}
+			resolve(line(100+j, ids))
+			c.Add("unrelated_ids_resolved", 9)
+		}
+		for i, a := range anchors {
+			c.Add("anchor_events_re_resolved", 1)
+			if got := resolve(a); got != first[i] {
+				c.Violation("resolve-depends-on-history", fmt.Sprintf("coalescing and resolving the same record gives a different event after %d unrelated ids went through the caches: %s", next-3000000, diffSig(first[i], got)), &c15Case{Groups: []logenc.Group{{Lines: []string{a}}}, Ops: []string{"coalesce 0", "resolve 0", fmt.Sprintf("(%d unrelated ids resolved)", next-3000000), "coalesce 0", "resolve 0"}})
+				return
+			}
+		}
+	}
 }
 
 var hardcodeOnce sync.Once
@@ -389,7 +441,7 @@ func c15Concurrent(c *mon.Ctx) {
 func init() {
 	register(&mon.CheckSpec{
 		ID: "C15", Level: "exploration",
-		Rule: "cases = seeded operation histories over a pool of 6-12 message groups (generated SYSCALL groups and single records with unique values, compound events that share one first record type - every named type in turn - with different syscalls, the repo's 47 recorded events, groups of hostile mutated text): CoalesceMessages(i), the same again (and four more times at the end of the history; some groups carry two SOCKADDR records of different families), ResolveIDs(e_j) through the global caches (names injected with HardcodeUsers/Groups for determinism), and a re-check of EVERY event returned so far after every operation. Deep copies of Data()/Tags()/ToMapStr() of every input message taken before its first use must equal the values afterwards; a repeated coalesce must give an equal event (JSON + sorted multiset of warning texts); every retained event must equal its own snapshot at every later step. A second phase under the race detector coalesces and resolves different groups (incl. EXECVE records with 1..N arguments in ascending order) from 16 goroutines - the FIRST round on the cold process, before anything was coalesced sequentially, so lazily built global state is built by racing goroutines - and compares with a sequential reference computed afterwards (which must itself be stable). distinct_nontrivial = distinct histories (by pool text and op list) that contain a repeated coalesce or a ResolveIDs while other events are retained.",
+		Rule: "cases = seeded operation histories over a pool of 6-12 message groups (generated SYSCALL groups and single records with unique values, compound events that share one first record type - every named type in turn - with different syscalls, the repo's 47 recorded events, groups of hostile mutated text): CoalesceMessages(i), the same again (and four more times at the end of the history; some groups carry two SOCKADDR records of different families), ResolveIDs(e_j) through the global caches (names injected with HardcodeUsers/Groups for determinism), and a re-check of EVERY event returned so far after every operation. Deep copies of Data()/Tags()/ToMapStr() of every input message taken before its first use must equal the values afterwards; a repeated coalesce must give an equal event (JSON + sorted multiset of warning texts); every retained event must equal its own snapshot at every later step. After the histories, events whose ids carry names that never expire (root, injected names) are coalesced and resolved again after every few thousand unrelated ids went through the global caches: the result must not change. A second phase under the race detector coalesces and resolves different groups (incl. EXECVE records with 1..N arguments in ascending order) from 16 goroutines - the FIRST round on the cold process, before anything was coalesced sequentially, so lazily built global state is built by racing goroutines - and compares with a sequential reference computed afterwards (which must itself be stable). distinct_nontrivial = distinct histories (by pool text and op list) that contain a repeated coalesce or a ResolveIDs while other events are retained.",
 		Assumptions: []string{
 			"the ORDER of Event.Warnings is not asserted (they are produced while ranging over maps); warnings are compared as a sorted multiset",
 			"ResolveIDs may change the event it is given; all other retained events and all input messages must stay equal",
@@ -424,6 +476,7 @@ func init() {
 					c.Sample(map[string]any{"pool_groups": len(pool), "first_group": clipStr(strings.Join(pool[0].Lines, " // "), 200)})
 				}
 			})
+			c15ResolveStability(c)
 			c.Require("repeated_coalesce_calls", 100)
 			c.Require("resolve_calls", 100)
 			c.Require("rechecks", 1000)
